@@ -526,6 +526,14 @@ def gen_relay():
     body += "Definition read_ahead_drained_both_ways_before_unwrap : bool := %s.\n" % B(drain_both and drain_ok)
     body += "Definition bidi_runs_two_halves_until_both_done : bool := %s.\n" % B(both_halves)
     body += "Definition io_errors_abort_both_directions : bool := %s.\n" % B(errors_propagate)
+    # accounting (C16): each hand-over and each relay direction is credited to its own counter
+    credit = bool(re.search(r"drain_buffers\s*\(\s*&mut\s+client\s*,\s*&mut\s+server\s*\)[^;]*;\s*client_stat\s*\.\s*incr_sent_bytes\s*\(\s*len\s*\)\s*;[^;]*drain_buffers\s*\(\s*&mut\s+server\s*,\s*&mut\s+client\s*\)[^;]*;\s*server_stat\s*\.\s*incr_sent_bytes\s*\(\s*len\s*\)", cb, re.S))
+    halves = re.findall(r"copy_half\s*\(\s*params\s*,\s*(\w+)\s*,\s*(\w+)\s*,\s*(\w+)\s*\.\s*clone\s*\(\s*\)", cb)
+    halves_ok = halves == [("csrc", "sdst", "client_stat"), ("ssrc", "cdst", "server_stat")]
+    counted = len(re.findall(r"stat\s*\.\s*incr_sent_bytes\s*\(\s*len\s*\)", ch)) == 3
+    body += "Definition handover_credited_to_own_direction : bool := %s.\n" % B(credit)
+    body += "Definition relay_halves_use_own_counters : bool := %s.\n" % B(halves_ok)
+    body += "Definition every_relay_arm_counts : bool := %s.\n" % B(counted)
     return body
 
 
@@ -689,9 +697,36 @@ def gen_locks():
     return out
 
 
+def gen_udp():
+    """reverse UDP listener and UDP frame reader facts (C10): src/listeners/reverse.rs, src/common/udp.rs, src/common/quic.rs"""
+    rev = strip_rust(open(os.path.join(REPO, "src/listeners/reverse.rs")).read())
+    ua = fn_body(rev, "udp_accept")
+    m = re.search(r"\}\s*else\s*\{", ua)
+    first_forwarded = False
+    if m:
+        els = block_after(ua[m.start():], r"else\s*\{")
+        first_forwarded = bool(re.search(r"\btx\s*\.\s*send\s*\(\s*buf\s*\)", els)) and bool(re.search(r"sessions\s*\.\s*insert\s*\(\s*source\s*,", els))
+    known_forwarded = bool(re.search(r"sessions\s*\.\s*get\s*\(\s*&source\s*\)[^{]*\{\s*tx\s*\.\s*send\s*\(\s*buf\s*\)", ua))
+    udp = strip_rust(open(os.path.join(REPO, "src/common/udp.rs")).read())
+    rd = block_after(udp, r"impl\s+FrameReader\s+for\s+UdpFrameReader\s*\{")
+    body = fn_body(rd, "read")
+    # `_ = buf.recv_from(..)` discards the result; `r = buf.recv_from(..) => { r?; ..` (or a match) propagates it
+    discards = bool(re.search(r"\b_\s*=\s*buf\s*\.\s*recv_from", body))
+    quic = strip_rust(open(os.path.join(REPO, "src/common/quic.rs")).read())
+    qt = fn_body(quic, "quic_frames_thread")
+    by_sid = bool(re.search(r"let\s+sid\s*=\s*frame\s*\.\s*session_id\s*;", qt)) and bool(re.search(r"sessions\s*\.\s*get\s*\(\s*&sid\s*\)", qt))
+    B = lambda b: "true" if b else "false"
+    out = "(* GENERATED by gen/translate.py from src/listeners/reverse.rs, src/common/udp.rs, src/common/quic.rs.  Do not edit. *)\n"
+    out += "Definition reverse_first_datagram_forwarded : bool := %s.\n" % B(first_forwarded)
+    out += "Definition reverse_known_session_forwarded : bool := %s.\n" % B(known_forwarded)
+    out += "Definition udp_reader_propagates_recv_error : bool := %s.\n" % B(not discards)
+    out += "Definition quic_frames_dispatched_by_session_id : bool := %s.\n" % B(by_sid)
+    return out
+
+
 def main(which=None):
     changed = []
-    gens = {"Gen_panics.v": lambda: gen_panics()[0], "Gen_profile.v": gen_profile, "Gen_ladder.v": gen_ladder, "Gen_reload.v": gen_reload, "Gen_lb.v": gen_lb, "Gen_callbacks.v": gen_callbacks, "Gen_relay.v": gen_relay, "Gen_startup.v": gen_startup, "Gen_locks.v": gen_locks}
+    gens = {"Gen_panics.v": lambda: gen_panics()[0], "Gen_profile.v": gen_profile, "Gen_ladder.v": gen_ladder, "Gen_reload.v": gen_reload, "Gen_lb.v": gen_lb, "Gen_callbacks.v": gen_callbacks, "Gen_relay.v": gen_relay, "Gen_startup.v": gen_startup, "Gen_locks.v": gen_locks, "Gen_udp.v": gen_udp}
     for name, fn in gens.items():
         if which and name not in which:
             continue
